@@ -110,11 +110,12 @@ struct Run<'a> {
     hands: Vec<Option<Held>>,
     addr_of: Vec<usize>,
     exact: bool,
-    problems: Vec<(String, Value, String, usize)>,
+    problems: &'a std::cell::RefCell<Vec<(String, Value, String, usize)>>,
     step: usize,
     act: String,
     beat: &'a AtomicU64,
     obs_ok: u64,
+    early_final: u64,
     salt: u64,
 }
 
@@ -134,12 +135,12 @@ impl<'a> Run<'a> {
 
     fn contract(&mut self, what: &str, desc: String) {
         let s = self.sig(what);
-        self.problems.push(("contract".into(), s, desc, self.step));
+        self.problems.borrow_mut().push(("contract".into(), s, desc, self.step));
     }
 
     fn hang(&mut self, what: &str, desc: String) {
         let s = self.sig(what);
-        self.problems.push(("hang".into(), s, desc, self.step));
+        self.problems.borrow_mut().push(("hang".into(), s, desc, self.step));
     }
 
     fn mismatch(&mut self, what: &str, desc: String) {
@@ -147,7 +148,7 @@ impl<'a> Run<'a> {
             return;
         }
         let s = json!({"what": what, "leg": self.cfg.leg, "kind": self.kind, "act": self.act});
-        self.problems.push(("mismatch".into(), s, desc, self.step));
+        self.problems.borrow_mut().push(("mismatch".into(), s, desc, self.step));
         // one drift per case: the rest of the program runs under the contract oracle only
         self.exact = false;
     }
@@ -461,7 +462,14 @@ impl<'a> Run<'a> {
         match ops::submit(&mut self.be, &self.pool, kind, &fd, multi, off) {
             Err(e) => errkind(&e),
             Ok(op) => {
-                let op = ops::prime(op, &mut self.be, &self.pool);
+                let mut early = false;
+                let op = ops::prime(op, &mut self.be, &self.pool, &mut early);
+                if early && self.exact {
+                    // rt leg only: a future cannot be submitted without being polled; when that first poll
+                    // already ends the operation without a handle the rest runs under the contract oracle only
+                    self.exact = false;
+                    self.early_final += 1;
+                }
                 let ptr = rec::since(mark).iter().find(|e| e.site == "op.alloc").map(|e| e.a).unwrap_or(0);
                 self.ops.insert(o.to_string(), OpRec {
                     op: Some(op),
@@ -533,6 +541,12 @@ impl<'a> Run<'a> {
         self.ops.clear();
         self.hands.clear();
         self.act = "after-release".into();
+        // an operation that was running on a pool thread when the proactor went away ends on its own
+        let t0 = Instant::now();
+        while alloc::stats().0 > 0 && t0.elapsed() < self.cfg.wd {
+            std::thread::sleep(Duration::from_millis(2));
+            self.tick();
+        }
         let (live, allocs, frees, dbl) = alloc::stats();
         if dbl > 0 {
             self.contract("double-free", format!("{dbl} buffers deallocated twice ({allocs} allocated, {frees} freed)"));
@@ -592,7 +606,7 @@ impl<'a> Run<'a> {
     }
 }
 
-fn run_case(cfg: &Cfg, case: &Value, idx: usize, beat: &AtomicU64) -> (Vec<(String, Value, String, usize)>, u64, u64) {
+fn run_case(cfg: &Cfg, case: &Value, idx: usize, beat: &AtomicU64, problems: &std::cell::RefCell<Vec<(String, Value, String, usize)>>) -> (u64, u64) {
     let kind = case["kind"].as_str().unwrap_or("ring").to_string();
     let n = case["n"].as_u64().unwrap_or(2) as usize;
     let maxh = case["maxh"].as_u64().unwrap_or(n as u64 + 1) as usize;
@@ -628,11 +642,12 @@ fn run_case(cfg: &Cfg, case: &Value, idx: usize, beat: &AtomicU64) -> (Vec<(Stri
         hands: (0..maxh).map(|_| None).collect(),
         addr_of: vec![],
         exact: !cfg.free,
-        problems: vec![],
+        problems,
         step: 0,
         act: "init".into(),
         beat,
         obs_ok: 0,
+        early_final: 0,
         salt: idx as u64 * 16,
     };
     let mut nsteps = 0u64;
@@ -724,6 +739,46 @@ fn run_case(cfg: &Cfg, case: &Value, idx: usize, beat: &AtomicU64) -> (Vec<(Stri
                 }
             }
             "release" => run.release(),
+            // control: the documented misuse (BufferPool::take called directly on a buffer the kernel owns);
+            // the contract oracle has to see the resulting double ownership
+            "misuse_take" => {
+                if let Ok(Some(b)) = run.pool.take(k as u16) {
+                    run.take_handle(b, "", h);
+                }
+            }
+            // many recycles of the same buffers: the u16 ring tail wraps, the free list rotates
+            "soak" => {
+                for it in 0..k {
+                    if let Some(s) = run.srcs.get_mut(&o) {
+                        let _ = s.feed(1);
+                    }
+                    if run.do_submit(&o, false) != "ok" {
+                        run.contract("pool-shrunk", format!("recycle {it}: no buffer for a managed read with nothing held"));
+                        break;
+                    }
+                    let t0 = Instant::now();
+                    while !run.ops.get(&o).map(|r| r.done()).unwrap_or(true) && t0.elapsed() < run.cfg.wd {
+                        run.poll_once(if t0.elapsed().as_millis() < 5 { 0 } else { 2 });
+                    }
+                    let out = run.do_next(&o, 1);
+                    if out != "handle" {
+                        if out == "pending" {
+                            run.hang("no-answer", format!("recycle {it}: managed read not answered"));
+                            run.do_cancel(&o);
+                        } else {
+                            run.contract("pool-shrunk", format!("recycle {it}: managed read with nothing held answered `{out}`"));
+                        }
+                        break;
+                    }
+                    if it % 4096 == 0 || it + 8 > k {
+                        run.check(None);
+                    }
+                    run.hands[0].take();
+                    if it % 512 == 0 {
+                        rec::clear();
+                    }
+                }
+            }
             _ => {}
         }
         if run.exact && got != want {
@@ -741,7 +796,7 @@ fn run_case(cfg: &Cfg, case: &Value, idx: usize, beat: &AtomicU64) -> (Vec<(Stri
     }
     run.teardown();
     let obs_ok = run.obs_ok;
-    (std::mem::take(&mut run.problems), nsteps, obs_ok)
+    (nsteps, obs_ok)
 }
 
 fn main() {
@@ -821,15 +876,16 @@ fn main() {
         }
         *cur.lock().unwrap_or_else(|e| e.into_inner()) = case.clone();
         beat.fetch_add(1, Ordering::Relaxed);
-        let r = catch_unwind(AssertUnwindSafe(|| run_case(&cfg, &case, idx, &beat)));
+        let problems = std::cell::RefCell::new(vec![]);
+        let r = catch_unwind(AssertUnwindSafe(|| run_case(&cfg, &case, idx, &beat, &problems)));
         rep.cases += 1;
+        for (ty, sig, desc, step) in problems.into_inner() {
+            rep.problem(&ty, sig, desc, &case, step);
+        }
         match r {
-            Ok((problems, nsteps, obs_ok)) => {
+            Ok((nsteps, obs_ok)) => {
                 rep.steps += nsteps;
                 obs_total += obs_ok;
-                for (ty, sig, desc, step) in problems {
-                    rep.problem(&ty, sig, desc, &case, step);
-                }
             }
             Err(e) => {
                 let msg = panic_msg(e);
